@@ -68,12 +68,13 @@ def family(name, n):
     if name == 'huffman-good-then-ff':     # valid code for n/2 symbols, then a tail of 0xff: refused at the end
         e = huff_encode(b'a' * (n // 2)) + b'\xff' * (n // 2)
         return [], b'\x00' + int_octets(len(e), 7, 0x80) + e + b'\x01v', {'limit': big}
-    if name == 'bigtable-inserted-literals':   # a table of 2^30 octets: every literal stays, the table grows with the block
-        return [int_octets(1 << 30, 5, 0x20)], b'\x40\x01a\x00' * n, {'limit': big, 'allowed': 1 << 30}
-    if name == 'bigtable-inserted-then-referenced':   # ... and every one of them is then referenced once, oldest first
-        m = max(n // 8, 1)
-        refs = b''.join(int_octets(62 + m - 1 - i, 7, 0x80) for i in range(0, m, max(m // 2000, 1)))
-        return [int_octets(1 << 30, 5, 0x20)], b'\x40\x01a\x00' * m + refs, {'limit': big, 'allowed': 1 << 30}
+    # a table of 64 KiB (a common HTTP/2 setting; the property fixes the limits, so per-field work that is bounded by
+    # the table size - a list instead of a deque, say - is still linear and must not be flagged: the table is full
+    # after 2048 of these fields, long before the larger sizes of the ladder)
+    if name == 'table64k-inserted-literals':
+        return [int_octets(1 << 16, 5, 0x20)], b'\x40\x01a\x00' * n, {'limit': big, 'allowed': 1 << 16}
+    if name == 'table64k-inserted-and-referenced':   # ... each insertion followed by references to entries in the middle and near the old end
+        return [int_octets(1 << 16, 5, 0x20) + b'\x40\x01a\x00' * 2048], (b'\x40\x01a\x00' + int_octets(1062, 7, 0x80) + int_octets(2040, 7, 0x80)) * n, {'limit': big, 'allowed': 1 << 16}
     if name == 'huffman-literals':
         return [], b'\x40\x81\x1f\x81\x1f' * n, {'limit': big}
     raise SystemExit('unknown family ' + name)
@@ -82,7 +83,7 @@ def family(name, n):
 FAMILIES = ['index-run', 'index-run-zero', 'namelen-run', 'valuelen-run', 'update-run', 'litname-index-run', 'plain-string',
             'huffman-string', 'indexed-fields', 'dyn-indexed-fields', 'inserted-literals', 'plain-literals', 'never-literals-idxname',
             'size-updates', 'size-updates-2', 'evicting-literals', 'huffman-literals', 'high-index-fields', 'high-index-literals',
-            'huffman-ff-refused', 'huffman-good-then-ff', 'bigtable-inserted-literals', 'bigtable-inserted-then-referenced']
+            'huffman-ff-refused', 'huffman-good-then-ff', 'table64k-inserted-literals', 'table64k-inserted-and-referenced']
 
 
 def main():
@@ -109,14 +110,14 @@ def main():
         res = None
         for _ in range(reps):
             d = fresh()
-            t = time.process_time()
+            t = os.times().user          # user CPU only: page-fault (system) time depends on the machine's memory pressure
             try:
                 r = d.decode(block, raw=True); res = 'ok %d' % len(r)
             except HPACKDecodingError as e:
                 res = 'err ' + type(e).__name__
             except Exception as e:
                 res = 'esc ' + type(e).__name__
-            dt = time.process_time() - t
+            dt = os.times().user - t
             best = dt if best is None else min(best, dt)
         out.update(time=best, result=res)
     else:
